@@ -647,7 +647,7 @@ def borrowed_cases(ctx, judge, quick_subset=False):
     combos = ((AnalogWaveform, np.float64, 1), (ComplexWaveform, np.complex128, 1), (DigitalWaveform, np.uint8, 2),
               (DigitalWaveform, np.uint8, 1), (Spectrum, np.float64, 1))
     for cls, dtype, nd in combos:
-        for memory in ("readonly-bytes", "readonly-flag", "view", "owned"):
+        for memory in ("readonly-bytes", "readonly-flag", "readonly-later", "view", "owned"):
             for slack in (0, 3):
                 for tk in (("none",) if cls is Spectrum else ("irregular", "regular", "none")):
                     count = 2
@@ -672,7 +672,15 @@ def borrowed_cases(ctx, judge, quick_subset=False):
                         tm = timing_for(tk, count)
                         if tm is not None:
                             kw["timing"] = tm
-                        return cls(**kw)
+                        w = cls(**kw)
+                        if memory == "readonly-later":
+                            # the caller write-protects the array it lent, after the waveform was built on it
+                            root = buf
+                            while isinstance(root.base, np.ndarray):
+                                root = root.base
+                            root.setflags(write=False)
+                            buf.setflags(write=False)
+                        return w
                     key = "data" if cls in (DigitalWaveform, Spectrum) else "raw_data"
                     arr = lambda m: np.ones((m, cols) if nd == 2 else m, dtype)   # noqa: E731
                     stamps = lambda m: [t0 + (count + i) * sec for i in range(m)]   # noqa: E731
